@@ -1003,3 +1003,10 @@ PLAN['C03']['stages'] = lambda tier, seed: _c03e(tier, seed) + [
 PLAN['C03']['rule'] += (' Stage lock_effect: remembering verifications with a real effect race with every writer operation of spec/Partial.tla in '
                         'both orders (suspended through the hook points); results and final forest must be those of one of the two sequential '
                         'orders - a verification whose check and store are not one atomic step leaves hashes verified against another state.')
+
+
+# --------------------------------------------------------------------------- C10: forests created from bare roots that are asked to remember old leaves
+PLAN['C10']['stages'] = (lambda f: (lambda tier, seed: f(tier, seed) + [ops('ops_missing', ['missing'], 5 if tier == 'quick' else 7)]))(PLAN['C10']['stages'])
+PLAN['C10']['rule'] += (' Stage ops_missing (spec/ProofOps.tla): map forests created from the bare roots of every state - full and non-full - are asked '
+                        'to remember leaves that are older than they are (Ingest, Verify with remember); they must then track them at their true '
+                        'positions.')
